@@ -8,7 +8,7 @@ from lib.probes import Probe
 
 PID = "C12"
 GEN = ["lockcfg"]
-LEAN_MODULES = ["YowsupVerif.Props.C12"]
+LEAN_MODULES = ["YowsupVerif.Props.C12", "YowsupVerif.Props.C12Seg"]
 RULE = ("operation sequences of length 2..7 on the real default stack [bottom probe, segments, noise (real protocol state machine, tagging "
         "transport), coder, logger, axolotl control, (axolotl send|receive), (protocol layers), top probe]: fault-free send / receive, and the "
         "property's own failure kinds at every layer position — down: unencodable value (coder raises), oversized frame (segment layer's size "
@@ -129,6 +129,15 @@ def cases(chk):
     for _ in range(chk.scale(60, 1500)):
         nt = r.choice([2, 2, 3])
         yield "concurrent", {"frames": [[r.choice(["ok", "ok", "fail"]) for _i in range(r.randint(1, 3))] for _t in range(nt)], "seed": r.randrange(1 << 30)}
+    # the segment layer alone, with a top that raises for chosen frames: per call, the real layer against Model/Segments.lean's recvF
+    yield "segfail", {"frames": ["07", "0809", "05"], "bad": [1], "cuts": [5], "extra": 1, "seed": 1}
+    for _ in range(chk.scale(150, 4000)):
+        nf = r.randint(1, 6)
+        frames = [bytes([i + 1]) * r.randint(1, 6) + bytes([r.randrange(256)]) for i in range(nf)]
+        total = sum(3 + len(f) for f in frames)
+        yield "segfail", {"frames": [f.hex() for f in frames], "bad": [i for i in range(nf) if r.random() < 0.35],
+                          "cuts": sorted(set(r.randrange(1, total) for _i in range(r.choice([0, 1, 2, 3, 6])))) if total > 1 else [],
+                          "extra": r.randint(0, 3), "seed": r.randrange(1 << 30)}
     # several frames coalesced / split by the network: failing frames anywhere in a chunk, chunk borders anywhere (also inside headers)
     yield "coalesced", {"kinds": ["recv-ok", "recv-callback-raises", "recv-ok"], "cuts": [], "seed": 1}
     yield "coalesced", {"kinds": ["recv-undecodable", "recv-ok", "recv-ok"], "cuts": [2], "seed": 2}
@@ -146,7 +155,7 @@ def cases(chk):
 
 
 def nontrivial(stream, case):
-    if stream in ("concurrent", "coalesced"):
+    if stream in ("concurrent", "coalesced", "segfail"):
         return repr(case)
     return (tuple(case["ops"]), tuple(case["threads"]))
 
@@ -318,11 +327,68 @@ def run_coalesced(chk, case):
     return fails
 
 
+def run_segfail(chk, case):
+    """the real YowNoiseSegmentsLayer between two probes, the upper one raising for the frames marked bad; every network chunk is one
+    receive(); after each call: frames handed upward, the layer's buffer and whether the call raised, against recvF of the Lean model; at the
+    end the clauses of Props/C12Seg.lean on the real run (prefix at all times; everything handed up after the retries)"""
+    from lib.probes import sandwich
+    from yowsup.layers.noise.layer_noise_segments import YowNoiseSegmentsLayer
+    fails = []
+    frames = [bytes.fromhex(f) for f in case["frames"]]
+    bad = set(frames[i] for i in case["bad"])
+    layer = YowNoiseSegmentsLayer()
+    _stack, _bottom, top = sandwich(layer, props={YowNoiseSegmentsLayer.PROP_ENABLED: True})
+    handed = []
+    real_receive = top.receive
+
+    def receive(data):
+        handed.append(bytes(data))
+        if bytes(data) in bad:
+            raise Boom("frame handler raises")
+    top.receive = receive
+    stream_bytes = b"".join(_be24(len(f)) + f for f in frames)
+    cuts = [c for c in case["cuts"] if 0 < c < len(stream_bytes)]
+    pts = [0] + cuts + [len(stream_bytes)]
+    chunks = [stream_bytes[a:b] for a, b in zip(pts, pts[1:])] + [b""] * (len(bad) + case["extra"])
+    d = chk.driver
+    d.ask("seg reset 1")
+    bads = "+".join(f.hex() for f in bad) or "-"
+    raises = 0
+    ctx = "frames %s (failing: %s) cut at %s" % (case["frames"], sorted(case["bad"]), cuts)
+    chk.hit("segfail:bad=%d" % len(bad), "segfail:chunks=%d" % min(9, len(cuts) + 1))
+    for ci, c in enumerate(chunks):
+        n0 = len(handed)
+        raised = False
+        try:
+            layer.receive(c)
+        except Boom:
+            raised = True
+            raises += 1
+        buf = getattr(layer, "_read_buffer", None)
+        impl = "up:%s;buf:%s;raised:%s" % (",".join(x.hex() for x in handed[n0:]), (bytes(buf).hex() or "-") if buf is not None else "?", "true" if raised else "false")
+        model = d.ask("seg recvf %s %s" % (bads, c.hex() or "-"))
+        if buf is None:
+            model = ";".join(p if not p.startswith("buf:") else "buf:?" for p in model.split(";"))
+        if impl != model:
+            fails.append(corr("segfail:recv", "%s, call #%d with %s: impl=%s model=%s" % (ctx, ci, c.hex()[:40] or "no data", impl[:200], model[:200])))
+            break
+        if handed != frames[:len(handed)]:
+            fails.append(oracle("C12:frames-lost-or-reordered", "%s: after call #%d the upper layer has been handed %s, not a prefix of the frames sent"
+                                % (ctx, ci, [x.hex() for x in handed])))
+            return fails
+    if not fails and (handed != frames or raises != len(bad)):
+        fails.append(oracle("C12:frames-lost-or-reordered", "%s, then %d calls without new data: handed up %s (%d of %d frames), %d errors reported for %d failing frames"
+                            % (ctx, len(bad) + case["extra"], [x.hex() for x in handed][:8], len(handed), len(frames), raises, len(bad))))
+    return fails
+
+
 def run_case(chk, stream, case):
     if stream == "concurrent":
         return run_concurrent(chk, case)
     if stream == "coalesced":
         return run_coalesced(chk, case)
+    if stream == "segfail":
+        return run_segfail(chk, case)
     from yowsup.layers.protocol_presence.protocolentities import AvailablePresenceProtocolEntity, PresenceProtocolEntity
     fails = []
     stack, insts, bottom, top, noise = build()
@@ -462,6 +528,14 @@ def run_case(chk, stream, case):
 
 def shrink(stream, case):
     if stream == "concurrent":
+        return
+    if stream == "segfail":
+        fr, bad, cuts = case["frames"], case["bad"], case["cuts"]
+        for i in range(len(fr)):
+            if len(fr) > 1:
+                yield dict(case, frames=fr[:i] + fr[i + 1:], bad=[b - (1 if b > i else 0) for b in bad if b != i])
+        for i in range(len(cuts)):
+            yield dict(case, cuts=cuts[:i] + cuts[i + 1:])
         return
     if stream == "coalesced":
         ks, cuts = case["kinds"], case["cuts"]
